@@ -19,6 +19,7 @@ package socket
 //@   ensures res[len(res) - 1] == 48 + v % 10
 //@   ensures v < 10 <==> len(res) == 1
 //@   ensures v >= 10 ==> res[0] != 48
+//@   ensures v > 0 ==> !released[arr(res)]
 //@   loop 1:
 //@     invariant 11 <= i && i <= 31 && len(buf) == 32 && 0 <= v && v <= p10b(i) && (i == 31 ==> v == v$0 && v > 0) && (i == 30 ==> v == v$0 / 10) && (i < 30 ==> v$0 >= 10) &&
 //@          (i < 31 ==> buf[31] == 48 + v$0 % 10 && (v == 0 ==> buf[i + 1] != 48)) &&
@@ -38,6 +39,7 @@ package socket
 // address conversions -------------------------------------------------------------------------------
 //
 //@ import net "net"
+//@ import byteslice "github.com/panjf2000/gnet/v2/pkg/pool/byteslice"
 //@ import unix "golang.org/x/sys/unix"
 //@ pure as4(sa unix.Sockaddr) *unix.SockaddrInet4 := ref(sa)
 //@ pure as6(sa unix.Sockaddr) *unix.SockaddrInet6 := ref(sa)
